@@ -207,12 +207,30 @@ def structure_diff(impl, model, ulps=1):
     return None
 
 
+def big_str(n):
+    """str(int) without CPython's 4300-digit limit"""
+    if n < 0:
+        return '-' + big_str(-n)
+    base = 10 ** 4000
+    parts = []
+    while n >= base:
+        n, r = divmod(n, base)
+        parts.append('%04000d' % r)
+    parts.append(str(n))
+    return ''.join(reversed(parts))
+
+
+def frac_str(q):
+    return big_str(q.numerator) if q.denominator == 1 else big_str(q.numerator) + '/' + big_str(q.denominator)
+
+
 def jsonable(obs):
     """observation -> JSON-friendly (Fractions as strings)"""
     if obs.get('outcome') != 'ok':
         return obs
     def v(x):
-        return [str(y) if isinstance(y, Fraction) else y for y in x]
+        return [frac_str(y) if isinstance(y, Fraction) else (big_str(y) if isinstance(y, int) and not isinstance(y, bool) else y)
+                for y in x]
     return {'outcome': 'ok', 'dps': [[list(m[:4]) + [v(m[4])] for m in dp] for dp in obs['dps']]}
 
 
